@@ -326,6 +326,8 @@ def extract_fn(relpath, qual, ann):
     apply_maploops(ed, it, it["closures"], src, ann, qual, relpath)
     apply_forloops(ed, it["loops"], src, ann, qual)
     apply_fund_sums(ed, src, s0, e0)
+    apply_bound_ctor_maps(ed, src, s0, e0)
+    apply_int_min(ed, it, src)
     apply_destructuring_assign(ed, src, s0, e0)
     apply_format_macros(ed, it, src)
     apply_storage_has(ed, it, src)
@@ -510,6 +512,56 @@ def apply_format_macros(ed, it, src, inside=lambda sp: True):
 
 
 
+def _range_chain(it, src, end):
+    """D22: recognise `MAP.range(store, START, None, Order::Ascending)[.skip(N)].take(LIMIT)` ending at byte `end`."""
+    def call_ending_at(e, name):
+        c = [m for m in it["mcalls"] if m["name"] == name and m["span"][1] == e]
+        return c[0] if len(c) == 1 else None
+    def arg(m, i):
+        a = m["args"][i]
+        return src[a[0]:a[1]].decode().strip()
+    tk = call_ending_at(end, "take")
+    if tk is None or len(tk["args"]) != 1:
+        return None
+    sk = call_ending_at(tk["recv_end"], "skip")
+    if sk is not None and len(sk["args"]) != 1:
+        return None
+    rg = call_ending_at((sk or tk)["recv_end"], "range")
+    if rg is None or len(rg["args"]) != 4:
+        return None
+    if arg(rg, 2) != "None" or arg(rg, 3) != "Order::Ascending":
+        raise Inconclusive("D22: storage range with an upper bound or descending order is not modelled")
+    mexpr = src[rg["span"][0]:rg["recv_end"]].decode().strip()
+    if not re.match(r"^[A-Z_][A-Z0-9_]*$", mexpr):
+        raise Inconclusive(f"D22: range receiver `{mexpr[:30]}` is not a storage map constant")
+    skip = arg(sk, 0) if sk is not None else "0"
+    call = f"verif_range_raw_asc(&{mexpr}, {arg(rg, 0)}, {arg(rg, 1)}, {skip}, {arg(tk, 0)})"
+    keys = f"range_keys({arg(rg, 0)}.kv@, {mexpr}.ns as int, {arg(rg, 1)}, ({skip}) as int, ({arg(tk, 0)}) as int)"
+    return {"start": rg["span"][0], "call": call, "keys": keys, "shape": f"{mexpr}.range(.., {arg(rg, 1)}, None, Ascending)" + (f".skip({skip})" if sk is not None else "") + f".take({arg(tk, 0)})"}
+
+
+def apply_int_min(ed, it, src, inside=lambda sp: True):
+    # D18 (mechanical): `RECV.min(CONST)` on a primitive integer (`Ord::min`, a provided trait method Verus cannot specify) -> `verif_ord_min(RECV, CONST)`
+    for m in it["mcalls"]:
+        if m["name"] != "min" or len(m["args"]) != 1 or not inside(m["span"]):
+            continue
+        a = src[m["args"][0][0]:m["args"][0][1]].decode().strip()
+        if not re.match(r"^([A-Z_][A-Z0-9_]*|\d[\d_]*(u32|u64|usize|u128)?)$", a):
+            continue
+        ed.add(m["span"][0], m["span"][0], "verif_ord_min(", "D18", f"`.min({a})` on a primitive integer -> verif_ord_min")
+        ed.add(m["recv_end"], m["args"][0][0], ", ", None)
+
+
+def apply_bound_ctor_maps(ed, src, lo, hi):
+    # D7 (mechanical): `.map(Bound::ExclusiveRaw)` / `.map(Bound::InclusiveRaw)` eta-expanded with the constructor's meaning as closure contract
+    body = src[lo:hi].decode()
+    for mm in re.finditer(r"\.map\(\s*Bound::(ExclusiveRaw|InclusiveRaw)\s*\)", body):
+        v = mm.group(1)
+        ed.add(lo + mm.start(), lo + mm.end(),
+               f".map(|verif_b: Vec<u8>| -> (verif_bd: Bound) ensures verif_bd == Bound::{v}(verif_b) {{ Bound::{v}(verif_b) }})",
+               "D7", f"`.map(Bound::{v})` eta-expanded")
+
+
 def apply_maploops(ed, it, closures, src, ann, qual, relpath):
     # D2: `X.into_iter()/.iter().map(|p| { BODY; Ok(p) | EXPR }).collect[::<..>]()[?]` -> index loop over X with BODY copied by span
     for k, inv in (ann.get("maploops") or {}).items():
@@ -524,21 +576,37 @@ def apply_maploops(ed, it, closures, src, ann, qual, relpath):
         if len(mp) != 1 or len(c["params"]) != 1 or not c["body_is_block"] or not c["body_stmts"]:
             raise Inconclusive(f"D2: closure #{k} of {qual} is not the argument of a .map(|p| {{..}}) call")
         mp = mp[0]
+        try_tail = False
+        if elem_ty and elem_ty.rstrip().endswith(" try"):
+            elem_ty, try_tail = elem_ty.rstrip()[:-4].rstrip(), True
         itc = [m for m in it["mcalls"] if m["name"] in ("into_iter", "iter") and m["span"][1] == mp["recv_end"]]
         col = [m for m in it["mcalls"] if m["name"] == "collect" and m["recv_end"] == mp["span"][1]]
-        if len(itc) != 1 or len(col) != 1:
+        rng = None
+        if len(itc) != 1 and len(col) == 1:
+            rng = _range_chain(it, src, mp["recv_end"])
+        if (len(itc) != 1 and rng is None) or len(col) != 1:
             raise Inconclusive(f"D2: .map of closure #{k} in {qual} is not of the shape X.iter()/into_iter().map(..).collect()")
-        itc, col = itc[0], col[0]
-        chain_start, chain_end = itc["span"][0], col["span"][1]
+        col = col[0]
+        if rng is not None:
+            # D22: `MAP.range(store, START, None, Order::Ascending)[.skip(N)].take(LIMIT)` as the source of the map/collect chain
+            chain_start, xsrc, by_value = rng["start"], rng["call"], True
+            ed.log.append({"file": relpath, "line": _srcline(src, chain_start), "rule": "D22",
+                           "note": "storage range iterator `" + rng["shape"] + "` materialised by verif_range_raw_asc (prelude/range.rs: ascending raw-key order, bound, skip, take)"})
+        else:
+            itc = itc[0]
+            chain_start, xsrc, by_value = itc["span"][0], src[itc["span"][0]:itc["recv_end"]].decode(), itc["name"] == "into_iter"
+        chain_end = col["span"][1]
         tries = [t for t in it.get("tries", []) if t[0] == chain_start and t[1] == chain_end + 1]
         if tries:
             chain_end += 1
-        xsrc = src[chain_start:itc["recv_end"]].decode()
         ptxt = src[c["params"][0]["span"][0]:c["params"][0]["span"][1]].decode()
-        bind = (f"let {ptxt} = verif_src.velem(verif_i);" if itc["name"] == "into_iter"
+        bind = (f"let {ptxt} = verif_src.velem(verif_i);" if by_value
                 else f"let {ptxt} = &verif_src[verif_i];")
         bs0, bs1 = c["body"]
-        head = ("{ let verif_src = " + xsrc + "; let mut verif_out" + (f": Vec<{elem_ty}>" if elem_ty else "") + " = Vec::new(); let mut verif_i: usize = 0;\n"
+        ghost_keys = ""
+        if rng is not None:
+            ghost_keys = " let ghost verif_keys = " + rng["keys"] + ";"
+        head = ("{ let verif_src = " + xsrc + ";" + ghost_keys + " let mut verif_out" + (f": Vec<{elem_ty}>" if elem_ty else "") + " = Vec::new(); let mut verif_i: usize = 0;\n"
                 "while verif_i < verif_src.len()\n" + inv.rstrip() + "\n    decreases verif_src.len() - verif_i\n{ " + bind + "\n")
         ed.add(chain_start, bs0 + 1, head, "D2", f"map/collect chain over `{xsrc.strip()[:40]}` desugared to an index loop (closure body copied by span)")
         tail = c["body_stmts"][-1]
@@ -550,10 +618,13 @@ def apply_maploops(ed, it, closures, src, ann, qual, relpath):
             okp = ts + ttxt.index("(") + 1
             ed.add(ts, okp, "verif_out.push(", "D2", "closure result `Ok(x)` becomes `push(x)`")
             ed.add(te - 1, te, "); verif_i = verif_i + 1;", None)
+        elif try_tail:
+            ed.add(ts, ts, "verif_out.push((", "D2", "closure result `EXPR` of type Result becomes `push((EXPR)?)` (collect into Result stops at the first Err)")
+            ed.add(te, te, ")?); verif_i = verif_i + 1;", None)
         else:
             ed.add(ts, ts, "verif_out.push(", "D2", "closure result becomes `push(..)`")
             ed.add(te, te, "); verif_i = verif_i + 1;", None)
-        result_block = (not tries) and bool(re.match(r"^Ok\s*\(", ttxt))
+        result_block = (not tries) and (try_tail or bool(re.match(r"^Ok\s*\(", ttxt)))
         if result_block:
             ed.log.append({"file": relpath, "line": _srcline(src, chain_start), "rule": "D2",
                            "note": "collect into Result without `?`: an Err inside the closure now returns from the function immediately (the original returns it at the later `?` on the collected value)"})
@@ -913,6 +984,9 @@ def extract_const(relpath, name, opts):
     if "pub(crate)" in text.split("=")[0]:
         text = text.replace("pub(crate)", "pub", 1)
         ed.log.append({"file": relpath, "line": _srcline(src, s0), "rule": "R11", "note": "pub(crate) -> pub (visibility only)"})
+    elif re.match(r"^\s*const\s", text):
+        text = re.sub(r"^(\s*)const\s", r"\1pub const ", text, count=1)
+        ed.log.append({"file": relpath, "line": _srcline(src, s0), "rule": "R11", "note": "private const made pub (visibility only)"})
     return text + "\n", segs, src, ed.log, it
 
 
